@@ -1099,6 +1099,137 @@ pub fn program(p: &mut Prng) -> String {
     Gen::new(p).program()
 }
 
+/// One *count* of the program blown up to 65..260 (a scope with that many bindings, that many
+/// functions, struct fields, constants, enum variants and match arms, parameters): whatever the
+/// compiler does differently "from N items on" happens here.
+pub fn scaled_program(p: &mut Prng) -> String {
+    let n = *p.pick(&[65usize, 66, 70, 80, 100, 128, 129, 200, 257, 260]);
+    let pick_some = |p: &mut Prng, k: usize| -> Vec<usize> {
+        let mut v: Vec<usize> = (0..n).collect();
+        p.shuffle(&mut v);
+        v.truncate(k.min(n));
+        v
+    };
+    let mut out = String::new();
+    match p.below(6) {
+        0 => {
+            // many bindings in one scope, two branches that change different subsets of them
+            out.push_str("pub fn main(a: u8, b: u8, c: bool, d: bool) -> u8 {\n");
+            for i in 0..n {
+                out.push_str(&format!("    let mut v{i} = a ^ {}u8;\n", i % 250));
+            }
+            for cond in ["c", "d"] {
+                out.push_str(&format!("    if {cond} {{\n"));
+                let k = p.range(2, 12) as usize;
+                for i in pick_some(p, k) {
+                    out.push_str(&format!("        v{i} = v{i} & (b ^ {}u8);\n", (2 * i + 1) % 250));
+                }
+                out.push_str("    } else {\n");
+                let k = p.range(1, 6) as usize;
+                for i in pick_some(p, k) {
+                    out.push_str(&format!("        v{i} = v{i} ^ b;\n"));
+                }
+                out.push_str("    }\n");
+            }
+            out.push_str("    let mut r = v0;\n");
+            for i in 1..n {
+                out.push_str(&format!("    r = r ^ v{i};\n"));
+            }
+            out.push_str("    r\n}\n");
+        }
+        1 => {
+            // many functions
+            for i in 0..n {
+                out.push_str(&format!("fn h{i}(x: u8) -> u8 {{\n    x ^ {}u8\n}}\n\n", i % 250));
+            }
+            out.push_str("pub fn main(a: u8, c: bool) -> u8 {\n    let mut r = a;\n");
+            for i in 0..n {
+                if i % 7 == 3 {
+                    out.push_str(&format!("    if c {{ r = h{i}(r); }} else {{ r = r + 1u8; }}\n"));
+                } else {
+                    out.push_str(&format!("    r = h{i}(r);\n"));
+                }
+            }
+            out.push_str("    r\n}\n");
+        }
+        2 => {
+            // a struct with many fields, updated under a condition
+            out.push_str("struct Big {\n");
+            for i in 0..n {
+                out.push_str(&format!("    f{i}: u8,\n"));
+            }
+            out.push_str("}\n\npub fn main(a: u8, b: u8, c: bool) -> u8 {\n    let mut s = Big {\n");
+            for i in 0..n {
+                out.push_str(&format!("        f{i}: a ^ {}u8,\n", i % 250));
+            }
+            out.push_str("    };\n    if c {\n");
+            for i in pick_some(p, 5) {
+                out.push_str(&format!("        s.f{i} = s.f{i} & b;\n"));
+            }
+            out.push_str("    } else {\n");
+            for i in pick_some(p, 3) {
+                out.push_str(&format!("        s.f{i} = s.f{i} ^ b;\n"));
+            }
+            out.push_str("    }\n    let mut r = 0u8;\n");
+            for i in 0..n {
+                out.push_str(&format!("    r = r ^ s.f{i};\n"));
+            }
+            out.push_str("    r\n}\n");
+        }
+        3 => {
+            // many constants
+            for i in 0..n {
+                out.push_str(&format!("const K{i}: u8 = {}u8;\n", i % 250));
+            }
+            out.push_str("\npub fn main(a: u8, c: bool) -> u8 {\n    let mut r = a;\n");
+            for i in 0..n {
+                if i % 9 == 4 {
+                    out.push_str(&format!("    if c {{ r = r ^ K{i}; }} else {{ r = r & K{i}; }}\n"));
+                } else {
+                    out.push_str(&format!("    r = r ^ K{i};\n"));
+                }
+            }
+            out.push_str("    r\n}\n");
+        }
+        4 => {
+            // an enum with many variants and a match with as many arms
+            out.push_str("enum E {\n");
+            for i in 0..n {
+                out.push_str(&format!("    V{i},\n"));
+            }
+            out.push_str("}\n\npub fn main(e: E, a: u8) -> u8 {\n    match e {\n");
+            for i in 0..n {
+                out.push_str(&format!("        E::V{i} => a ^ {}u8,\n", i % 250));
+            }
+            out.push_str("    }\n}\n");
+        }
+        _ => {
+            // many parameters (= many parties)
+            let params: Vec<String> = (0..n).map(|i| format!("p{i}: {}", if i % 3 == 0 { "bool" } else { "u8" })).collect();
+            out.push_str(&format!("pub fn main({}) -> u8 {{\n    let mut r = 0u8;\n", params.join(", ")));
+            for i in 0..n {
+                if i % 3 == 0 {
+                    out.push_str(&format!("    if p{i} {{ r = r + 1u8; }}\n"));
+                } else {
+                    out.push_str(&format!("    r = r ^ p{i};\n"));
+                }
+            }
+            out.push_str("    r\n}\n");
+        }
+    }
+    out
+}
+
+/// A program with one party so wide (just under 10^k bits) that the wires of its hundred-odd
+/// gates straddle the decimal boundary 10^k: number formatting and parsing at every width.
+pub fn wide_program(p: &mut Prng, k: u32) -> String {
+    let target = 10u64.pow(k);
+    // inputs = 8 * n + 16; the first gate's wire is `inputs`: land 0..160 wires below the boundary
+    let n = (target - 16 - p.below(160)) / 8;
+    let op = *p.pick(&["+", "-", "^", "&"]);
+    format!("pub fn main(a: [u8; {n}], b: u8, c: u8) -> (u8, bool, u8) {{\n    (b {op} c, a[0] > a[{}], a[{}] ^ b)\n}}\n", n - 1, n / 2)
+}
+
 /// Marker that makes `analyse` draw the values of external constants from the boundary values of
 /// their types instead of small numbers (which array sizes need).
 pub const WIDE_CONSTS_MARKER: &str = "// wide constants";
